@@ -228,6 +228,9 @@ pub fn gen(c: &Chain, cfg: &Cfg, m: &Menu, rng: &mut Rng, kind: &str) -> Option<
         }
         "keeper_rate" => exec("owner", "dispatcher", json!({"k": "update_config", "hub_contract": "", "bsei_reward_contract": "", "stsei_reward_denom": "",
             "bsei_reward_denom": "", "krp_keeper_address": *rng.pick(&["", "", "keeper"]), "krp_keeper_rate": *rng.pick(&DECS)}), json!([])),
+        // an owner names the stSei reward denom in a dispatcher configuration update (it must never change)
+        "disp_denom" => exec(*rng.pick(&["owner", "owner2"]), "dispatcher", json!({"k": "update_config", "hub_contract": "", "bsei_reward_contract": "", "stsei_reward_denom": *rng.pick(&["usei", "usei", "kusd"]),
+            "bsei_reward_denom": "", "krp_keeper_address": "", "krp_keeper_rate": []}), json!([])),
         // the dispatcher re-pointed to another hub (a contract that accepts everything) and back
         "disp_hub" => exec("owner", "dispatcher", json!({"k": "update_config", "hub_contract": *rng.pick(&["sink", "sink", "hub"]), "bsei_reward_contract": "", "stsei_reward_denom": "",
             "bsei_reward_denom": "", "krp_keeper_address": "", "krp_keeper_rate": []}), json!([])),
